@@ -1769,9 +1769,109 @@ fn finalstep(rng: &mut Rng, iters: u64) {
     }
 }
 
+/// C08 probe (bounded stand-in: sqrt_mod / pow_mod / perfect_power are generic over foreign numeric traits, arith::isqrt is a
+/// re-export of num-integer: none is under contract): against independent definitions, on structured inputs.
+fn arithfn(rng: &mut Rng, iters: u64) {
+    use yamaquasi::arith::{isqrt, perfect_power, pow_mod, sqrt_mod};
+    fn mulmod(a: u64, b: u64, m: u64) -> u64 { ((a as u128 * b as u128) % m as u128) as u64 }
+    fn powmod(mut b: u64, mut e: u64, m: u64) -> u64 { let mut r = 1 % m; b %= m; while e > 0 { if e & 1 == 1 { r = mulmod(r, b, m); } b = mulmod(b, b, m); e >>= 1; } r }
+    fn is_prime(n: u64) -> bool { if n < 2 { return false; } let mut d = 2; while d * d <= n { if n % d == 0 { return false; } d += 1; } true }
+    // primes: every shape of p - 1 (p = 3 mod 4, 2-adic valuation up to 23), tiny ones, near 2^16 / 2^24 / 2^31
+    let mut primes: Vec<u64> = vec![2, 3, 5, 7, 13, 17, 41, 97, 193, 257, 769, 12289, 40961, 65537, 786433, 5767169, 7340033, 23068673, 104857601, 998244353, 16777213, 16777259, 2147483647, 2147483629, 65521, 65519];
+    for _ in 0..20 { let mut q = (rng.next() % (1 << 24)) | 1; while !is_prime(q) { q += 2; } primes.push(q); }
+    for &p in &primes {
+        if !is_prime(p) { fail("arithfn", format!("internal: {p} is not prime")); }
+        let trials = if iters < 1000 { 12 } else { 200 };
+        for t in 0..trials {
+            let n: u64 = match t { 0 => 0, 1 => 1, 2 => p - 1, 3 => p, 4 => p + 1, 5 => 4, _ => rng.next() % (1 << 40) };
+            let qr = n % p == 0 || p == 2 || powmod(n % p, (p - 1) / 2, p) == 1;
+            // the simplified Tonelli-Shanks is O(2^v) for p - 1 = q 2^v: only factor-base sized primes (p < 2^24, v <= 20) and small v
+            let v2 = (p - 1).trailing_zeros();
+            if p < (1 << 24) || v2 <= 12 {
+            match catch_unwind(AssertUnwindSafe(|| sqrt_mod(n, p))) {
+                Err(_) => fail("arithfn", format!("sqrt_mod({n}, {p}): panic")),
+                Ok(Some(r)) => if r >= p || mulmod(r, r, p) != n % p { fail("arithfn", format!("sqrt_mod({n}, {p}) = {r}: r^2 mod p = {}, n mod p = {}", mulmod(r, r, p), n % p)); },
+                Ok(None) => if qr { fail("arithfn", format!("sqrt_mod({n}, {p}) = None although {n} is a square modulo {p}")); },
+            }
+            }
+            // pow_mod on u64 (p < 2^32 so that products fit) against 128-bit arithmetic
+            let (b, e) = (rng.next() % (1 << 32), rng.word());
+            match catch_unwind(AssertUnwindSafe(|| pow_mod(b, e, p))) {
+                Err(_) => fail("arithfn", format!("pow_mod({b}, {e}, {p}): panic")),
+                Ok(v) => if v != powmod(b, e, p) { fail("arithfn", format!("pow_mod({b}, {e}, {p}) = {v}, expected {}", powmod(b, e, p))); },
+            }
+        }
+    }
+    // multiword: sqrt_mod / pow_mod with Mersenne primes (p = 3 mod 4) and 2^64 - 59 = 5 mod 8 ... against squaring
+    let big: Vec<Uint> = vec![(Uint::ONE << 61) - Uint::ONE, (Uint::ONE << 89) - Uint::ONE, (Uint::ONE << 127) - Uint::ONE, (Uint::ONE << 64) - Uint::from(59u64)];
+    for p in &big {
+        for _ in 0..(if iters < 1000 { 3 } else { 30 }) {
+            let x = rng.uint(8) % *p;
+            let sq = (x * x) % *p;
+            if p.bits() <= 500 {
+                match catch_unwind(AssertUnwindSafe(|| sqrt_mod(sq, *p))) {
+                    Err(_) => fail("arithfn", format!("sqrt_mod({sq}, {p}): panic")),
+                    Ok(Some(r)) => if (r * r) % *p != sq { fail("arithfn", format!("sqrt_mod({sq}, {p}) = {r} is not a square root")); },
+                    Ok(None) => fail("arithfn", format!("sqrt_mod({sq}, {p}) = None although the argument is the square of {x}")),
+                }
+            }
+            // Fermat: x^(p-1) = 1, and x^e x^f = x^(e+f)
+            let (e, f) = (Uint::from(rng.next()), rng.uint(2));
+            let r = catch_unwind(AssertUnwindSafe(|| (pow_mod(x, *p - Uint::ONE, *p), pow_mod(x, e, *p), pow_mod(x, f, *p), pow_mod(x, e + f, *p))));
+            match r {
+                Err(_) => fail("arithfn", format!("pow_mod({x}, .., {p}): panic")),
+                Ok((one, xe, xf, xef)) => {
+                    if !x.is_zero() && one != Uint::ONE { fail("arithfn", format!("pow_mod({x}, p - 1, p = {p}) = {one}, expected 1 (p is prime)")); }
+                    if (xe * xf) % *p != xef { fail("arithfn", format!("pow_mod({x}, e, {p}) * pow_mod(x, f, p) != pow_mod(x, e + f, p) for e = {e}, f = {f}")); }
+                }
+            }
+        }
+    }
+    // perfect_power: n = b^e with b not a perfect power; the exponent found is the part of e made of the primes 2..19
+    let small_np = [2u64, 3, 5, 6, 7, 10, 12, 15, 18, 21, 1000003, 65537, 4294967291];
+    for &b in &small_np {
+        for e in 1u32..=40 {
+            let mut n = Uint::ONE; let mut ok = true;
+            for _ in 0..e { if n.bits() + 64 > 1000 { ok = false; break; } n = n * Uint::from(b); }
+            if !ok || n.bits() > 960 { break; }
+            let (mut s, mut t) = (1u32, e);
+            for k in [2u32, 3, 5, 7, 11, 13, 17, 19] { while t % k == 0 { t /= k; s *= k; } }
+            let want = if s > 1 { let mut r = Uint::ONE; for _ in 0..t { r = r * Uint::from(b); } Some((r, s)) } else { None };
+            match catch_unwind(AssertUnwindSafe(|| perfect_power(n))) {
+                Err(_) => fail("arithfn", format!("perfect_power({b}^{e}): panic")),
+                Ok(got) => if got != want { fail("arithfn", format!("perfect_power({b}^{e} = {n}) = {got:?}, expected {want:?}")); },
+            }
+            if n.bits() <= 64 {
+                let n64 = n.digits()[0];
+                let want64 = want.map(|(r, s)| (r.digits()[0], s));
+                match catch_unwind(AssertUnwindSafe(|| perfect_power(n64))) {
+                    Err(_) => fail("arithfn", format!("perfect_power({n64}u64): panic")),
+                    Ok(got) => if got != want64 { fail("arithfn", format!("perfect_power({n64}u64 = {b}^{e}) = {got:?}, expected {want64:?}")); },
+                }
+            }
+            // a neighbour of a power is not a power (b^e + 1 for e >= 2 is a power only for 2^3 + 1)
+            if e >= 2 && !(b == 2 && e == 3) {
+                let m = n + Uint::ONE;
+                if let Ok(Some(g)) = catch_unwind(AssertUnwindSafe(|| perfect_power(m))) { fail("arithfn", format!("perfect_power({b}^{e} + 1) = {g:?}")); }
+            }
+        }
+    }
+    // integer square root
+    for it in 0..iters.max(100) {
+        let n = match it % 4 { 0 => rng.word(), 1 => { let r = rng.next() % (1 << 32); r * r }, 2 => { let r = 1 + rng.next() % ((1 << 32) - 1); r * r - 1 }, _ => rng.next() };
+        let r = isqrt(n);
+        if (r as u128) * (r as u128) > n as u128 || ((r as u128) + 1) * ((r as u128) + 1) <= n as u128 { fail("arithfn", format!("arith::isqrt({n}) = {r}")); }
+        let x = rng.uint(1 + (it % 7) as usize);
+        let big = x * x + if it % 3 == 0 { Uint::ZERO } else { x };
+        let rb = isqrt(big);
+        if rb != x { fail("arithfn", format!("arith::isqrt({big}) = {rb}, expected {x}")); }
+    }
+}
+
 pub fn run(case: &str, rng: &mut Rng, iters: u64) -> bool {
     match case {
         "gcdbez" => gcdbez(rng, iters),
+        "arithfn" => arithfn(rng, iters),
         "finalstep" => finalstep(rng, iters),
         "packrel" => packrel(rng, iters),
         "siqsroots" => siqsroots(rng, iters),
